@@ -32,6 +32,7 @@ F3 = "C10-F3-ancestor-module-declaration-not-found"
 F4 = "C10-F4-scalar-function-call-accepted-as-relation"
 F5 = "C10-F5-duplicate-name-in-tuple-resolves-to-the-last"
 F6 = "C10-F6-excluded-column-of-wildcard-input-inferred-back"
+F7 = "C10-F7-module-or-relation-name-in-dead-case-branch-accepted"
 STD_SCALAR_CALLS = ["(math.abs 3)", "(math.round 1 2.5)", "(math.floor 2.5)", "(sum 3)", "(count this)", "(min 3)", "(math.pow 2 3)", "(3 + 4)", "(text.upper \"a\")"]
 
 HEADER = ("From Coq Require Import List NArith Bool.\nFrom PV Require Import Lib.ListX Model.Scope Gen.GenC10Std.\n"
@@ -372,22 +373,24 @@ def run():
                 txt = "%s %s:1%s" % (fname, un, rest) if before else "%s %s:1" % (st.text, un)
                 cases.append({"stream": "edit-d-unknown-named", "src": p.text(upto=k, extra=[txt]), "kind": "call", "pi": pi,
                               "coq": "call %s %s [%s]" % (path, args, cs(un)), "site": st.kind, "name": un})
-        # user / std scalar functions
+        # user / std scalar functions -- bare in a derive, or inside a case branch that static evaluation removes
         fr = p.frames[-1]
         a = g.num_ref(fr)
+        wrap = g.pick(["derive {zz = %s}", "derive {zz = %s}", "derive {zz = case [false => %s, true => 0]}", "derive {zz = case [zflag => %s, true => 0]}",
+                       "derive {zz = case [true => 0, true => %s]}"])
         if a is not None:
             for f in p.funcs:
-                cases.append({"stream": "edit-c-surplus-positional", "src": p.text(extra=["derive {zz = (%s %s 7)}" % (f, a[0])]), "kind": "call", "pi": pi,
-                              "coq": "apply_fn (mkSig [PAny] []) [AScalar; AScalar] []", "site": "user-fn"})
+                cases.append({"stream": "edit-c-surplus-positional", "src": p.text(extra=[wrap % ("(%s %s 7)" % (f, a[0]))]), "kind": "call", "pi": pi,
+                              "coq": "apply_fn (mkSig [PAny] []) [AScalar; AScalar] []", "site": "user-fn" + (":in-dead-case" if "case" in wrap else "")})
                 un = g.pick(["zz", "v"])      # `v` is the name of the function's positional parameter
-                cases.append({"stream": "edit-d-unknown-named", "src": p.text(extra=["derive {zz = (%s %s:1 %s)}" % (f, un, a[0])]), "kind": "call", "pi": pi,
-                              "coq": "apply_fn (mkSig [PAny] []) [AScalar] [%s]" % cs(un), "site": "user-fn", "name": un})
+                cases.append({"stream": "edit-d-unknown-named", "src": p.text(extra=[wrap % ("(%s %s:1 %s)" % (f, un, a[0]))]), "kind": "call", "pi": pi,
+                              "coq": "apply_fn (mkSig [PAny] []) [AScalar] [%s]" % cs(un), "site": "user-fn" + (":in-dead-case" if "case" in wrap else ""), "name": un})
             if g.chance(0.3):
-                cases.append({"stream": "edit-c-surplus-positional", "src": p.text(extra=["derive {zz = (math.round 1 %s 7)}" % a[0]]), "kind": "call", "pi": pi,
-                              "coq": "call [%s; %s] [AScalar; AScalar; AScalar] []" % (cs("math"), cs("round")), "site": "std-fn"})
+                cases.append({"stream": "edit-c-surplus-positional", "src": p.text(extra=[wrap % ("(math.round 1 %s 7)" % a[0])]), "kind": "call", "pi": pi,
+                              "coq": "call [%s; %s] [AScalar; AScalar; AScalar] []" % (cs("math"), cs("round")), "site": "std-fn" + (":in-dead-case" if "case" in wrap else "")})
                 un = g.pick(["zz", "n_digits", "column"])
-                cases.append({"stream": "edit-d-unknown-named", "src": p.text(extra=["derive {zz = (math.round %s:1 1 %s)}" % (un, a[0])]), "kind": "call", "pi": pi,
-                              "coq": "call [%s; %s] [AScalar; AScalar] [%s]" % (cs("math"), cs("round"), cs(un)), "site": "std-fn", "name": un})
+                cases.append({"stream": "edit-d-unknown-named", "src": p.text(extra=[wrap % ("(math.round %s:1 1 %s)" % (un, a[0]))]), "kind": "call", "pi": pi,
+                              "coq": "call [%s; %s] [AScalar; AScalar] [%s]" % (cs("math"), cs("round"), cs(un)), "site": "std-fn" + (":in-dead-case" if "case" in wrap else ""), "name": un})
         # (e) scalar where a relation is required
         if g.chance(0.5):
             lit = g.pick(["5", "\"t\"", "3.5", "true", "null"])
@@ -467,6 +470,30 @@ def run():
         fn, src, args = g.pick(variants)
         cases.append({"stream": "edit-e-scalar-for-relation", "src": src, "kind": "call", "pi": pi,
                       "coq": "call [%s] %s []" % (cs(fn), args), "site": fn + ":std-call", "name": callx, "what": "std-call"})
+
+    # (b3) AFTER a join with a fresh, fully known right relation that has a column named like a uniquely named column of the
+    #      frame so far -- a column of an input OR one the pipeline defined itself (derive / select / aggregate alias): the
+    #      bare name now matches columns of two relations in scope, at every site kind
+    for pi, p in enumerate(progs):
+        for k in range(1, len(p.frames)):
+            fr = p.frames[k]
+            if not fr.closed or len(fr.inputs) >= 3 or not g.chance(0.6):
+                continue
+            uniq = [r for r in g.refs(fr) if not r[1][0] and r[2][0] != "infer"]
+            direct = [r for r in uniq if r[2][0] == "direct"]
+            if not uniq:
+                continue
+            txt, ident, exp = g.pick(direct) if direct and g.chance(0.6) else g.pick(uniq)
+            n = ident[1]
+            alias, other = g.fresh("y"), g.fresh("q")
+            qual = [r for r in g.refs(fr) if r[1][0]]
+            cond = "(%s == %s.%s)" % (g.pick(qual)[0], alias, other) if qual else "(%s.%s == 2)" % (alias, other)
+            fr2 = fr.copy()
+            fr2.inputs.append(c10_gen.Input(alias, [n, other], False))
+            sk = g.pick([x for x in c10_gen.SITES if x not in ("join-cond", "take")])
+            cases.append({"stream": "edit-b-ambiguous-name", "src": p.text(upto=k, extra=["join %s%s = [{%s = 1, %s = 2}] %s" % (g.pick(["", "side:left "]), alias, n, other, cond), c10_gen.SITES[sk] % n]),
+                          "kind": "edit", "pi": pi, "coq": "lower_ref head_cfg %s %s" % (coq_scope(p, fr2), coq_ident(([], n))),
+                          "site": sk, "name": n, "what": "after-join:" + exp[0], "frame": fr2.describe()})
 
     # (b'') a select that keeps the same-named column of two inputs, then the bare name (C10-F5): still two candidates
     for pi, p in enumerate(progs):
@@ -653,6 +680,10 @@ def run():
         # C10-F5: the step before the site is a select keeping `x.n, y.n`; the model still sees two candidates
         if case.get("what") == "dup-select" and case.get("model_kind") == "OErr:EAmbiguous":
             return F5
+        # C10-F7: a module / relation name / `that` as the value of a case branch that static evaluation removes: the a131b2a /
+        # 006e33c tests sit in lower_expr, which never sees the branch
+        if case.get("stream") == "edit-f-module-or-relation-as-value" and case.get("site") in c10_gen.DEAD_SITES and case.get("model_kind") == "OErr:ENotAValue":
+            return F7
         # C10-F6: the name was excluded by the immediately preceding `select !{..}` from a wildcard input; the (faithful) model infers it
         if case.get("what") == "excluded-column" and case.get("model_kind") == "OInferredColumn":
             return F6
